@@ -409,6 +409,31 @@ def spec_c01(c):
     return None
 
 
+def c01_extra(ctx, cases):
+    """C01 at CLI level on LARGE instances (a course with a minimum size above 100): what the real binary writes satisfies the hard
+    constraints (hard_okb in Coq, no model run needed)"""
+    recs = clirun.run_large_family(ctx, vlib.build_cli(), ctx.seed + 41, 6 if ctx.tier == "quick" else 40)
+    viol = []
+    st = Counter()
+    for r in recs:
+        st["runs"] += 1
+        st["exit_%s" % r["run"]["rc"]] += 1
+        w = None
+        if r["run"]["timeout"] or r["run"]["rc"] not in (0, 1):
+            w = "C01/C10: the program crashes / hangs on a large valid instance (exit %s)" % r["run"]["rc"]
+        elif r["run"]["rc"] == 0 and not isinstance(r["out"], tuple):
+            w = "C01: exit 0 without a well-formed output file on a large instance (%s)" % (r["out"],)
+        elif r["run"]["rc"] == 0 and (r["code"] & CLI["class"]) and not (r["code"] & CLI["hard"]):
+            w = "C01: the assignment written for a large instance (a course with a minimum size above 100) violates the hard constraints (hard_okb evaluated in Coq)"
+        if w:
+            rp = ctx.replay({"kind": "failing-input", "stream": "cli-large", "what": w, "instance_file_content": r["inst"], "threads": r["threads"],
+                             "exit": r["run"]["rc"], "output": r["out"] if not isinstance(r["out"], tuple) else {"assignment": r["out"][0], "score": r["out"][1]},
+                             "how": "write instance_file_content to a file and run target/cli/debug/cdecao --num-threads N <file> <out>"})
+            viol.append((w + ": %d participants, --num-threads %d" % (len(r["inst"]["participants"]), r["threads"]), rp, False))
+    ctx.extra_cov = dict(getattr(ctx, "extra_cov", {}) or {}, cli_large=dict(st))
+    return viol[:3], []
+
+
 def spec_c06(c):
     if c["stream"] == "node" and has(c, NODE, "feas") and not has(c, NODE, "housed") and c["meta"]["inst"]["rooms"] is not None:
         return "C06: a Feasible node result cannot be housed (housedb on effective sizes, binary32, evaluated in Coq)"
@@ -955,6 +980,16 @@ def exit_checks(ctx, scen_fn, pid, what_table):
         stats["class:" + r["label"].split(":")[0]] += 1
         w = None
         pr = r.get("probe") or {}
+        if r.get("closed_stdout"):
+            # stdout cannot be written: the `print!` of the listing panics (exit 101) -- an environment limit recorded in the trusted base; what C16
+            # demands is still decidable: exit status 0 only if the requested output was written completely
+            stats["stdout_closed_runs"] += 1
+            if r["exit"] == 0 and not r["file_ok"]:
+                w = what_table["c16"]
+                rp = ctx.replay({"kind": "failing-input", "stream": "exit", "what": w, "case": {k: r[k] for k in ("label", "args", "flags", "exit", "stderr", "file_ok")},
+                                 "how": "run the args with stdout connected to a pipe whose read end is closed"})
+                viol.append((w + " [" + r["label"] + "]", rp, False))
+            continue
         if (pr.get("parse_ok") and pr.get("consistent") and pr.get("places", 0) >= 5000 and not r["panicked"]
                 and (r["exit"] in (1000, 1001, 134, 137))):
             # a well-formed instance with an absurd number of course places (a corrupted size field): time / memory exhaustion is a
@@ -1339,6 +1374,33 @@ def c13_extra(ctx, cases):
             p2 = os.path.join(d, "twin_%04d_%d.json" % (ex["id"], len(pairs)))
             json.dump(e2, open(p2, "w", encoding="utf-8"), ensure_ascii=False)
             pairs.append((ex, e2, p2, track, ic, ia, kinds))
+    # directed: tie-heavy exports (several equally good solutions; which one is written depends on the order of the participants) whose twin has
+    # the alphabetical order of the persona names REVERSED -- the order of the participants must be that of the registration ids only
+    r2 = random.Random(ctx.seed + 1313)
+    for k in range(50 if ctx.tier == "quick" else 400):
+        e, tracks = cde.gen_export(r2, dense_assign=False)
+        if e["kind"] != "partial" or not tracks or len(e["registrations"]) < 3:
+            continue
+        cde.make_ties(r2, e)
+        tid = r2.choice(tracks)[0]
+        part = [pid for pid, p in e["event"]["parts"].items() if str(tid) in p["tracks"]][0]
+        for reg in e["registrations"].values():
+            reg["parts"][part] = {"status": 2}
+            reg["tracks"].setdefault(str(tid), {"course_id": None, "course_instructor": None, "choices": []})
+            reg["tracks"][str(tid)]["course_instructor"] = None
+        for c in e["courses"].values():
+            c["segments"][str(tid)] = True
+        cde.make_ties(r2, e)
+        p1 = os.path.join(d, "tie_%04d.json" % k)
+        json.dump(e, open(p1, "w", encoding="utf-8"), ensure_ascii=False)
+        e2 = copy.deepcopy(e)
+        order = sorted(e2["registrations"], key=lambda rid: (e2["registrations"][rid]["persona"]["given_names"], e2["registrations"][rid]["persona"]["family_name"]))
+        for pos, rid in enumerate(order):
+            pers = e2["registrations"][rid]["persona"]
+            pers["given_names"] = "%s%02d %s" % ("ZYXWVUTSRQPONMLKJIHGFEDCBA"[pos % 26], 99 - pos, pers["given_names"])
+        p2 = os.path.join(d, "tie_twin_%04d.json" % k)
+        json.dump(e2, open(p2, "w", encoding="utf-8"), ensure_ascii=False)
+        pairs.append(({"id": 9000 + k, "file": p1, "export": e, "tracks": tracks}, e2, p2, tid, False, False, ["persona_names"]))
     from concurrent.futures import ThreadPoolExecutor
 
     def work(t):
@@ -1643,7 +1705,8 @@ REGISTRY = {
                       "and without the suffix ' (instr)' (the listing is ambiguous otherwise)"],
         assumptions=["participant and course names are unique in the generated instances (needed to parse the listing back)"]),
 
-    "C01": dict(mk(spec_c01, streams_node_solve(2), RULE_NS), allow_axioms=(),
+    "C01": dict(mk(spec_c01, streams_node_solve(2), RULE_NS + "; CLI stage: large instances (a course with a minimum above 100, 105-180 participants) on the real "
+                   "binary, hard_okb on what it writes", extra_fn=c01_extra), allow_axioms=(),
         explanation="C01_node / C01: for every valid instance, every node, every worker count and interleaving (all reachable states of the "
                     "engine model), with and without rooms, the best solution satisfies the hard constraints for a set K of non-fixed "
                     "courses that do not take place.  Proved from the matching routine's validity (C07), the feasibility gate and the "
